@@ -8,6 +8,7 @@
 Code inspired by/based on https://github.com/tomchy/suit-composer.
 """
 from __future__ import annotations
+from collections.abc import Mapping
 from dataclasses import dataclass
 from typing import cast, Any
 import functools
@@ -154,12 +155,42 @@ class SuitObject(PrettyPrintHelperMixin):
             )
 
     @staticmethod
+    def reject_shared_values(obj: Any) -> None:
+        """Reject decoded data in which one value is referenced more than once (CBOR value sharing, tags 28/29).
+
+        Such data is tiny on the wire, but every reference is expanded when the value is encoded again, so a few
+        hundred bytes can turn into gigabytes.
+        """
+        seen = set()
+        stack = [obj]
+        while stack:
+            item = stack.pop()
+            if isinstance(item, cbor2.CBORTag):
+                children = (item.value,)
+            elif isinstance(item, (list, tuple)):
+                children = item
+            elif isinstance(item, Mapping):
+                children = (*item.keys(), *item.values())
+            elif isinstance(item, (bytes, str)) and len(item) >= 32:
+                children = ()
+            else:
+                continue
+            if len(children) == 0 and not isinstance(item, (bytes, str)):
+                continue
+            if id(item) in seen:
+                raise ValueError("Shared values (CBOR tags 28/29) are not supported")
+            seen.add(id(item))
+            stack.extend(children)
+
+    @staticmethod
     def deserialize_cbor(cbstr: bytes) -> Any:
         """Verify and deserialize cbor object."""
         # Ensure that cbor2.loads() will not consume all the available memory
         SuitObject.validate_cbor(cbstr)
         try:
-            return cbor2.loads(cbstr)
+            data = cbor2.loads(cbstr)
+            SuitObject.reject_shared_values(data)
+            return data
         except ImportError as err:
             # Can occur due to possible incompatibilities in packages between virtual environment and system scope
             # (seen on Windows, where cbor2 was installed globally and in virtual environment)
